@@ -29,9 +29,10 @@ def h_bisection(rec):
         import grids
 
         fails = grids.c10_cases("quick", 0, only_fn=rp["fn"])
+        fails = [f for f in fails if "int_bounds" not in str(f.get("case")) or rp.get("int_bounds")] + [f for f in fails if "int_bounds" in str(f.get("case")) and not rp.get("int_bounds")]
         if fails:
             return True, fails[0]["what"] + f" [case {fails[0]['case']}]"
-        return False, "triangular-map grid of the coordinate-wise driver passed on the real code"
+        return False, "triangular-map grid of the coordinate-wise driver (float and integer-typed bounds) passed on the real code"
     try:
         case = dict(fn=rp["fn"], root=rt.fnum(m["r"]), lower=rt.fnum(m["lo0"]), upper=rt.fnum(m["hi0"]), table=m.get("fn:f"))
         if rp["fn"] == "_bisection_search":
